@@ -55,9 +55,10 @@ def build():
         alts=dict(f=[C((8, 9), 9)], alpha=[K((0.1, 0.1))], shape=[K((9, 8))], unitary=[K(False)]))
     add('idft2-square', ['C01'], lentil.fourier.idft2,
         lambda s: dict(F=C((8, 9), 8)(s), alpha=(1 / 8, 1 / 9), shape=(8, 9)), alts=dict(F=[C((8, 9), 9)], unitary=[K(False)]))
-    add('dft2-wide-out', ['C01'], lentil.fourier.dft2,
+    add('dft2-wide-out', ['C01'], lambda f, alpha, shape, out: _dft2_out_vs_fresh(lentil, f, alpha, shape, out),
         lambda s: dict(f=C((3, 300), 10)(s), alpha=(0.2, 1 / 300), shape=(4, 5), out=np.full((4, 5), 2 - 1j)),
-        alts=dict(f=[C((3, 300), 11), C((300, 3), 12)], out=[lambda s: np.zeros((4, 5), dtype=complex)]), writes=['out'], norefill=['out'])
+        alts=dict(f=[C((3, 300), 11), C((300, 3), 12), C((40, 260), 13)], shape=[K((5, 4))], out=[lambda s: np.zeros((4, 5), dtype=complex)]), writes=['out'], norefill=['out'],
+        invariant=lambda r: r[1])
     add('idft2', ['C01'], lentil.fourier.idft2,
         lambda s: dict(F=C((4, 5), 4)(s), alpha=(0.25, 0.2), unitary=True),
         alts=dict(F=[C((4, 5), 5)], alpha=[K((0.2, 0.2)), K(0.25)], unitary=[K(False)], shift=[K((1.0, 0.0)), K((2.0, 0.0))]),
@@ -217,7 +218,7 @@ def build():
     add('tilt.shift', ['C04'], lambda t, xs, ys, z: t.shift(xs=xs, ys=ys, z=z), lambda s: dict(t=lentil.Tilt(x=1e-6, y=-2e-6), xs=0.0, ys=0.0, z=1.0),
         alts=dict(t=[lambda s: lentil.Tilt(x=3e-6, y=0.0)], xs=[K(1e-5)], ys=[K(2e-5)], z=[K(2.0)]))
     add('wavefront.attribute-then-fft', ['C09'], lambda w, z, du: _set_then(lentil, w, z, du), lambda s: dict(w=wf(76)(s), z=None, du=DU),
-        alts=dict(w=[wf(77)], z=[K(2.0), K(0.5)], du=[K(DU / 2)]), writes=['w'], norefill=['w'], invariant=lambda r: r[1])
+        alts=dict(w=[wf(77)], z=[K(1.3), K(0.7), K(2.0)], du=[K(DU / 2)]), writes=['w'], norefill=['w'], invariant=lambda r: r[1])
     add('plane.maskonly-mul-rescale-mul', ['C07', 'C17'], lambda shape, scale: _maskonly(lentil, shape, scale), lambda s: dict(shape=(10, 8), scale=2),
         alts=dict(shape=[K((9, 9))], scale=[K(1.5), K(0.5)]), invariant=lambda r: r[1])
     add('plane.fit_tilt', ['C04', 'C03'], lambda p: p.fit_tilt(), lambda s: dict(p=pupil(80)(s)),
@@ -510,3 +511,22 @@ def _maskonly(lentil, shape, scale):
     from .histories import dig
     bad = dig(w2) != dig(w3) or tuple(np.asarray(w2.field).shape) != tuple(np.asarray(q.mask).shape[-2:])
     return (w1, w2), ('a mask-only plane that was used before it was rescaled gives a different (or differently sized) field than one rescaled first' if bad else None)
+
+
+def _dft2_out_vs_fresh(lentil, f, alpha, shape, out):
+    """wide / tall inputs: writing into a caller's (dirty) buffer gives the values of a fresh allocation, also for the inverse"""
+    if tuple(out.shape) != tuple(shape):
+        out = np.full(tuple(shape), out.flat[0])
+    ref = np.array(lentil.fourier.dft2(f, alpha, shape=shape), copy=True)
+    r = lentil.fourier.dft2(f, alpha, shape=shape, out=out)
+    bad = (r is not out) or not np.array_equal(np.asarray(r), ref)
+    refi = np.array(lentil.fourier.idft2(f, alpha, shape=shape), copy=True)
+    out2 = np.full(tuple(shape), 7 + 7j)
+    ri = lentil.fourier.idft2(f, alpha, shape=shape, out=out2)
+    badi = not np.allclose(np.asarray(ri), refi, rtol=1e-13, atol=1e-13 * np.abs(refi).max())
+    msg = None
+    if bad:
+        msg = f'dft2 of a {f.shape} input into a caller-supplied buffer differs from a fresh allocation by {np.abs(np.asarray(r) - ref).max():.3e}'
+    elif badi:
+        msg = f'idft2 of a {f.shape} input into a caller-supplied buffer differs from a fresh allocation'
+    return np.array(r, copy=True), msg
